@@ -1,4 +1,6 @@
 import ErdosVerif.Props.C13
+import ErdosVerif.Lemmas.GreedyOk
+import ErdosVerif.Lemmas.GreedyCopy
 import ErdosVerif.Lemmas.LedgerByName
 /-!
 # C10 (greedy clauses) — EDF / FIFO / LSF return a complete, feasible decision
@@ -116,6 +118,16 @@ theorem jointly_feasible_lsf_partial (cfg : Cfg) (offer : List Offered) (live : 
     accountAll r.virt0 r.order r.placements = r.virt :=
   jointly_feasible_of_safe cfg offer live r h hinv (.inr hs)
 
+/-- **The plan starts from the live occupancy**: the copy the policy plans on has the same pools
+and workers as the live cluster, with the same totals, the same availability per resource type and
+the same resident (running) tasks — so "charged to `r.virt0`" in `jointly_feasible` means "together
+with the already running tasks". -/
+theorem plans_on_live_occupancy (cfg : Cfg) (offer : List Offered) (live : List Pool) (r : Result)
+    (h : schedule cfg offer live = .ok r) (hinv : ClusterInv live) :
+    r.virt0.length = live.length ∧
+    ∀ (i : Nat) p p0, live[i]? = some p → r.virt0[i]? = some p0 → SamePool p0 p :=
+  copyPools_same live r.virt0 hinv (schedule_ok cfg offer live r h).1
+
 /-- Consequence for every worker of the virtual cluster at return and every resource type:
 what is held (by running tasks and by the new placements) never exceeds the capacity, and
 available + held = capacity. -/
@@ -157,6 +169,38 @@ theorem placed_fits (cfg : Cfg) (offer : List Offered) (live : List Pool) (r : R
     have : j = i' := by omega
     subst this
     exact ⟨dpre, Vpre, q, h1, hq, hcq⟩
+
+/-! ### returns normally -/
+
+/-- **Returns normally** on what the loaders build: every offered task has at least one strategy,
+all strategies are plain `ExecutionStrategy` objects whose requirement has one entry per resource
+name (`NiceTask`); `copy(worker_pools)` succeeds (C04: it does for clusters whose resources carry
+concrete ids) and the LSF keys are defined (`lsf_keys_defined`). No hypothesis on occupancy,
+deadlines, releases or the policy. -/
+theorem returns_normally (cfg : Cfg) (offer : List Offered) (live V0 : List Pool)
+    (hcopy : copyPools live = .ok V0) (hkey : keyError? cfg offer = none)
+    (hn : ∀ o ∈ offer, NiceTask o) : ∃ r, schedule cfg offer live = .ok r :=
+  schedule_ok_of_nice cfg offer live V0 hcopy hkey hn
+
+/-- The sort keys never raise for EDF / FIFO, and for LSF when every offered task is RELEASED or
+VIRTUAL with a strategy, or PREEMPTED with a recorded remaining time. -/
+theorem lsf_keys_defined (cfg : Cfg) (offer : List Offered)
+    (h : ∀ o ∈ offer, (o.task.strategies ≠ [] ∧ (o.task.state = .released ∨ o.task.state = .virtual)) ∨
+      o.task.remaining.isSome ∧ o.task.state = .preempted) : keyError? cfg offer = none :=
+  keyError_none cfg offer h
+
+/-- The witness offer is `NiceTask` throughout (the hypothesis is satisfiable with multi-strategy
+tasks and contention). -/
+example : ∀ o ∈ Witness.offer, NiceTask o := by
+  intro o ho
+  simp only [Witness.offer, List.mem_cons, List.not_mem_nil, or_false] at ho
+  rcases ho with rfl | rfl | rfl <;>
+    refine ⟨by simp [Witness.mkTask], ?_⟩ <;>
+    intro s hs <;>
+    simp only [Witness.mkTask, List.mem_cons, List.not_mem_nil, or_false] at hs
+  · rcases hs with rfl | rfl <;> exact ⟨rfl, by unfold Resources.NiceReq; decide⟩
+  · subst hs; exact ⟨rfl, by unfold Resources.NiceReq; decide⟩
+  · subst hs; exact ⟨rfl, by unfold Resources.NiceReq; decide⟩
 
 /-! ### LSF as it is: the reported placements can over-commit a worker -/
 
